@@ -77,7 +77,7 @@ type FuncGen struct {
 	inlineSeq   int
 	closures    map[ssa.Value]*ssa.MakeClosure
 	lastAssert map[string]int
-	ownAllocs  []string
+	ownAllocs  []ownAlloc
 	known      map[string]touched
 	depsCache  map[string][]string
 	recording  map[string]bool
@@ -1257,4 +1257,24 @@ func (fg *FuncGen) checkedClauses() {
 			fg.assume(t)
 		}
 	}
+}
+
+// ownAlloc: an object allocated by the function under verification (it may be under
+// construction, so its invariant is not assumed); typ is the static pointer type.
+type ownAlloc struct {
+	T   string
+	typ types.Type
+}
+
+// ownGuards: v is none of this function's own allocations of the same type (objects of
+// different types never alias).
+func (fg *FuncGen) ownGuards(v Val) []string {
+	var own []string
+	for _, r := range fg.ownAllocs {
+		if v.Typ != nil && r.typ != nil && !types.Identical(v.Typ, r.typ) {
+			continue
+		}
+		own = append(own, fmt.Sprintf("(not (= %s %s))", v.T, r.T))
+	}
+	return own
 }
